@@ -83,7 +83,7 @@ CHECKS.update({
         note="Trusted: Verus/Z3, vstd, walker contract (proved, C01), a TRUSTED MODEL of by-value iteration over std HashMap (sequence of remaining entries without duplicates holding exactly the map's entries; order unspecified), String keys obey the hash key model and are equal when their characters are, assumed std contracts (string equality, clone returns an equal value, pt::Type / FunctionTy equality structural, identity into()), R5 desugaring. The property's side condition (state-variable names unique and not shadowed) is what lets name-keyed tables stand for variables.",
         technique="contract-based deductive verification (Verus) of the real table builder, the four detectors and their helpers (trusted iterator model for HashMap); bounded native corpus only for counterexamples"),
     "C09": dict(level="other",
-        text="Mixed: the version GATES are PROVED with Verus (safe_math_optimization and its two wrappers report all SafeMath sites iff v < (0,8,0) resp. v >= (0,8,0) as lexicographic triples and the file attaches SafeMath, never both [lemma]; string_errors reports the require-string literals iff v >= (0,8,4), short_revert_string those of byte length >= 32 iff v < (0,8,4); nothing without a version) relative to spec_version(file); the regex-based extractor get_solidity_version_from_source_unit that computes v is outside Verus (external crate) and is run on every version triple 0.0.0..1.2.40 (on boundary versions: x 6 operator spellings x 15 placements of the pragma statement -- other pragmas before / after, after a definition, at the end of the file, comments and white space inside the pragma value, a version-like experimental pragma -- x 4 bodies; previously x 4 placements of unrelated pragmas x 3 bodies = exhaustive over the stated domain).",
+        text="Mixed: the version GATES are PROVED with Verus (safe_math_optimization and its two wrappers report all SafeMath sites iff v < (0,8,0) resp. v >= (0,8,0) as lexicographic triples and the file attaches SafeMath, never both [lemma]; string_errors reports the require-string literals iff v >= (0,8,4), short_revert_string those of byte length >= 32 iff v < (0,8,4); nothing without a version) relative to spec_version(file); the regex-based extractor get_solidity_version_from_source_unit that computes v is outside Verus (external crate) and is run on every version triple 0.0.0..1.2.40 (on boundary versions: x 6 operator spellings x 15 placements of the pragma statement -- other pragmas before / after, after a definition, at the end of the file, comments and white space inside the pragma value, a version-like experimental pragma -- x 4 bodies = exhaustive over the stated domain).",
         design="§8 C09, §9",
         note="Trusted: Verus/Z3, vstd, walker contract (C01), assumed std contracts (string equality, String::len as uninterpreted byte length, HashSet::extend is union, SourceUnit::clone); parser invariant: string literal expressions are non-empty. The extractor part is bounded (exhaustive on the stated finite domain in thorough tier).",
         technique="contract-based deductive verification (Verus) of the gate functions; exhaustive-over-stated-domain native run of the regex extractor"),
